@@ -39,6 +39,20 @@ def mk_pts(n, x0, y0, dx, dy, c):
     return [[x0 + i * dx, y0 + i * dy + c * i * (n - 1 - i)] for i in range(n)]
 
 
+def heights_of(case):
+    """the line's heights in one of the container / element types real layouts carry (a Python list after construction, a
+    float64 array after PAGE XML import, float32 / int arrays from detectors); same values, chosen by a hash of the case"""
+    a, d = case["asc"], case["desc"]
+    k = (7 * a + 3 * d + sum(x + 2 * y for x, y in case["pts"]) + case["poly"]) % 4
+    if k == 0:
+        return [a, d]
+    if k == 1:
+        return np.array([a, d], dtype=np.float64)
+    if k == 2:
+        return np.array([a, d], dtype=np.float32)
+    return [np.float64(a), np.float64(d)]
+
+
 def grid_line(pts, asc, desc, h, sc):
     hs = asc + desc
     return (all(p[1] == pts[0][1] for p in pts) and sc == 10 and hs > 0 and h > 1 and hs % (h - 1) == 0
@@ -175,7 +189,7 @@ def run_case(case):
             if lc is not None:
                 crop = _process_page(lc, img, case)
             else:
-                crop = ce.crop(img, np.array(case["pts"], dtype=float), [case["asc"], case["desc"]])
+                crop = ce.crop(img, np.array(case["pts"], dtype=float), heights_of(case))
     except Exception as ex:       # the statement says "never an error": recorded, not a harness failure
         rec["outcome"] = "exception:" + type(ex).__name__
     finally:
@@ -212,7 +226,7 @@ def _process_page(lc, img, case):
     pl = PageLayout(id="p", page_size=(img.shape[0], img.shape[1]))
     reg = RegionLayout("r1", np.array([[0, 0], [img.shape[1], 0], [img.shape[1], img.shape[0]], [0, img.shape[0]]]))
     reg.lines.append(TextLine(id="l1", baseline=np.array(case["pts"], dtype=float), polygon=np.array([[0, 0], [1, 0], [1, 1]]),
-                              heights=[case["asc"], case["desc"]]))
+                              heights=heights_of(case)))
     pl.regions.append(reg)
     lc.process_page(img, pl)
     return reg.lines[0].crop
